@@ -7,7 +7,10 @@ EXTENDS Sync, Json
 \* the dense part (5), on a sample point (3), between sample points (4, 2) and beyond;
 \* Batch = 2 splits a 4-block download in two requests; ReqH = 4 puts the second request of
 \* branch a on the checkpoint + pre-validation path.
-WithId(t) == [par |-> t.par, h |-> t.h, cls |-> t.cls, lo |-> t.lo, hi |-> t.hi, id |-> [b \in DOMAIN t.par |-> b]]
+WithId(t) == [par |-> t.par, h |-> t.h, cls |-> t.cls, lo |-> t.lo, hi |-> t.hi, id |-> [b \in DOMAIN t.par |-> b],
+              v1 |-> [b \in DOMAIN t.par |-> FALSE]]
+\* the same tree with the given blocks mined as v1 blocks
+WithV1(t, vs) == [t EXCEPT !.v1 = [b \in DOMAIN t.par |-> b \in vs]]
 
 TreeA == WithId([
   par |-> [g |-> "g", t1 |-> "g", t2 |-> "t1", a3 |-> "t2", a4 |-> "a3", a5 |-> "a4", a6 |-> "a5", b3 |-> "t2", b4 |-> "b3", b5 |-> "b4"],
@@ -15,6 +18,9 @@ TreeA == WithId([
   cls |-> [g |-> "ok", t1 |-> "ok", t2 |-> "ok", a3 |-> "ok", a4 |-> "ok", a5 |-> "ok", a6 |-> "ok", b3 |-> "ok", b4 |-> "ok", b5 |-> "ok"],
   lo  |-> [g |-> 0, t1 |-> 1, t2 |-> 2, a3 |-> 3, a4 |-> 4, a5 |-> 5, a6 |-> 6, b3 |-> 3, b4 |-> 4, b5 |-> 5],
   hi  |-> [g |-> 0, t1 |-> 1, t2 |-> 2, a3 |-> 3, a4 |-> 4, a5 |-> 5, a6 |-> 6, b3 |-> 3, b4 |-> 4, b5 |-> 5]])
+
+\* TreeA with AllowH = 2, ReqH = 4: the window [2, 4) holds v1 blocks (t2, a3) next to a v2 block (b3)
+TreeAv1 == WithV1(TreeA, {"g", "t1", "t2", "a3"})
 
 \* a smaller tree for three nodes: trunk g-t1, a2..a4, b2..b3, c3 off a2
 TreeC == WithId([
@@ -86,6 +92,13 @@ BaseB == [n \in HB |-> "g"]
 CapB == [n \in HB |-> 2]
 TipsB == {f \in [HB -> {"g", "t1", "a2", "a4"}] : f["p"] = "a4"}
 TipsBq == {f \in [HB -> {"g", "t1", "a3"}] : f["p"] = "a3" /\ f["v"] # "a3"}
+
+\* plant-then-serve: two Byzantine peers; z relays an invalid block on the victim's tip (rejected, but its
+\* state stays stored), the accomplice y serves it through the pre-validated path
+ZB2 == {"z", "y"}
+EdgesB2 == {<<"v", "p">>, <<"z", "v">>, <<"y", "v">>}
+TipsPlant == {[n \in HB |-> IF n = "p" THEN "a3" ELSE "a2"]}
+PlantTops == {"w3", "a3"}
 
 \* ---- edge export (Leg R): printed once per explored transition, evaluated as ACTION_CONSTRAINT.
 \* The complete state is printed (the replay driver computes quiescent macro-steps on it and the Go
